@@ -55,5 +55,12 @@ func nullifyLastAppliedAnnotation(object *unstructured.Unstructured) {
 		return
 	}
 	delete(annotations, apply.LastAppliedAnnotation)
+	if len(annotations) == 0 {
+		// Don't leave an empty annotations map behind: it would be recorded as
+		// part of the desired state and differ from an object that never
+		// mentioned annotations at all.
+		unstructured.RemoveNestedField(object.Object, "metadata", "annotations")
+		return
+	}
 	object.SetAnnotations(annotations)
 }
